@@ -32,7 +32,7 @@ def generate(rng, tier, index):
     prof = dict(PROFILE, kinds=[FAMILIES[fam][0]])
     if fam == 'stream':
         prof['framings'] = [rng.choice(['tcp', 'tcp', 'rtu', 'ascii', 'binary'])]
-    scn = sc.gen_scenario(rng, prof)
+    scn = sc.gen_scenario(rng, sc.deepen(rng, prof, tier))
     scn['opts'].pop('broadcast_enable', None)
     scn['property'] = ID
     scn['family'] = fam
